@@ -17,7 +17,14 @@ import contextlib
 import itertools
 import json
 
-from canon_schema import canon, dump_schema
+from canon_schema import dump_schema
+
+
+def canon(d):
+    """Canonical text of a dump that keeps CODE POINTS apart: with ensure_ascii an astral character and the two lone
+    surrogates its escape is (wrongly) decoded into would both be written as the same \\ud83d\\ude00."""
+    return json.dumps(d, sort_keys=True, ensure_ascii=False)
+
 from common import CORPUS
 from gen import sdl
 
